@@ -206,6 +206,16 @@ def step1 (s : Eng) (line : String) : Eng × String :=
     if s.hasDB && s.pageN > 0 then (s, "exists")
     else if s.dbFile.isSome then (s, "eexist")
     else ({ s with hasDB := true, dbFile := some ByteArray.empty }, "ok")
+  | ["shmclose", owner] =>
+    if !(s.opened && s.hasDB) then (s, "bad-op") else
+    (match owner.toNat? with
+     | some o => let (s', r) := unlockSHM s o; (s', withExit s' (showRes r))
+     | none => (s, "bad-op"))
+  | ["dbclose", owner] =>
+    if !(s.opened && s.hasDB) then (s, "bad-op") else
+    (match owner.toNat? with
+     | some o => let (s', r) := unlockDatabase s o; (s', withExit s' (showRes r))
+     | none => (s, "bad-op"))
   | [op, owner, ls] =>
     match op with
     | "lock" | "rlock" | "unlock" | "canlock" | "canrlock" =>
